@@ -439,10 +439,15 @@ pub fn worker(ctx: &mut Ctx) {
     let tails = ["", " ", "\n", "\r\n"];
     let mut unit: u64 = 0;
 
+    let skip_fes: Vec<String> = ctx.opts.get("skipfe").map(|s| s.split(',').map(|x| x.to_string()).collect()).unwrap_or_default();
     macro_rules! run {
         ($case:expr) => {{
             let case: Case = $case;
             if ctx.begin_case(|| case.to_json().to_string()) {
+              if skip_fes.contains(&case.fe.name()) {
+                ctx.report.count("cases_skipped_front_end", 1);
+                ctx.end_case();
+              } else {
                 let mut rep = std::mem::take(&mut ctx.report);
                 exec_case(&mut env, &mut rep, &case);
                 ctx.report = rep;
@@ -450,6 +455,7 @@ pub fn worker(ctx: &mut Ctx) {
                     ctx.report.samples.push(json!({"fam": case.fam, "fe": case.fe.name(), "wrap": case.wrap.name(), "cfg": case.cfg.name(), "text": truncate_str(&case.text, 160)}));
                 }
                 ctx.end_case();
+              }
             }
         }};
     }
@@ -726,6 +732,60 @@ pub fn worker(ctx: &mut Ctx) {
                     run!(Case { fam: "markup-variants", fe: Fe::Md, wrap: Wrap::None, text, cfg: cfg.clone(), dialect });
                 }
             }
+        }
+    }
+
+    // L. documentation comments (JSDoc / Javadoc parsers): tag lines, HTML-only lines, inline tags,
+    //    in every order, intact and truncated
+    {
+        let n = ctx.budget(6_000, 150_000);
+        let mut rng = ctx.rng_global("sweep-L");
+        let doc_langs = ["java", "javascript", "typescript", "javascriptreact", "typescriptreact", "php", "c", "scala", "dart", "rust"];
+        let pool: [&str; 26] = ["<p>", "</p>", "<ul>", "</ul>", "<li>item one</li>", "<li>", "</li>", "<br/>", "<pre>", "</pre>", "{@code x = 1}", "{@link Foo#bar}", "{@link", "@param name the name", "@return the result",
+            "@throws IOException when it fails", "@see Other", "@deprecated", "@example", "", "*", "<b>bold</b> text", "{@inheritDoc}", "@param", "<!-- c -->", "</p"];
+        for i in 0..n {
+            unit += 1;
+            let mut r = Rng(rng.next());
+            if !ctx.mine(unit) {
+                continue;
+            }
+            let lang = doc_langs[(i as usize) % doc_langs.len()];
+            let fe = Fe::from_name(lang).unwrap();
+            let mut t = String::from(if lang == "php" { "<?php\n" } else { "" });
+            let style = r.below(3);
+            t.push_str(if lang == "rust" || style == 2 { "" } else { "/**\n" });
+            let lines = r.range(1, 6);
+            for li in 0..lines {
+                let lead = if lang == "rust" || style == 2 { "/// " } else if style == 0 { " * " } else { " *" };
+                t.push_str(lead);
+                if li + 1 == lines && r.chance(1, 2) {
+                    t.push_str(r.pick_str(&pool));
+                } else if r.chance(1, 2) {
+                    t.push_str(r.pick_str(&corpus.sentences));
+                    if r.chance(1, 3) {
+                        t.push(' ');
+                        t.push_str(r.pick_str(&pool));
+                    }
+                } else {
+                    t.push_str(r.pick_str(&pool));
+                    if r.chance(1, 3) {
+                        t.push(' ');
+                        t.push_str(r.pick_str(&corpus.sentences));
+                    }
+                }
+                t.push('\n');
+            }
+            if !(lang == "rust" || style == 2) {
+                t.push_str(" */\n");
+            }
+            t.push_str("void f() {}\n");
+            if r.chance(1, 5) {
+                let cs: Vec<char> = t.chars().collect();
+                let at = r.below(cs.len() + 1);
+                t = cs[..at].iter().collect();
+            }
+            let (cfg, dialect) = stream.cfg_for(unit);
+            run!(Case { fam: "doc-comment", fe, wrap: Wrap::None, text: t, cfg, dialect });
         }
     }
 
